@@ -12,7 +12,7 @@ import SaramaVerif.Model.Mocks
                  s:<id>,<topic>,<key>,<part0>     one input / SendMessage
                  b:<msg>;<msg>…  (b:- empty)      SendMessages (sync only)
                  c  Close                         m:<text>  annotation (ignored)
-  partitioners:  manual | hash | rr | cerr<code> | cecho | cfix<c> | cmix
+  partitioners:  manual | hash | fnv | rr | cerr<code> | cecho | cfix<c> | cmix
   consumer ops:  e:<t>,<p>,<off>  ym:<t>,<p>  ye:<t>,<p>,<code>  dm:<t>,<p>  de:<t>,<p>  cp:<t>,<p>,<off>
                  rm:<t>,<p>  re:<t>,<p>  pc:<t>,<p>  pa:<t>,<p>  cc  hw  tp  pt:<t>  md:<t>=<p>.<p>;…
   The answer has one token per op that shows something (see the harness for the same canonical forms).
@@ -125,10 +125,20 @@ def prodRun {σ : Type} (P : Part σ) (mode : Mode) : PState σ → List String 
     | some (s', none) => prodRun P mode s' ts acc
     | some (s', some o) => prodRun P mode s' ts (o :: acc)
 
+/-- FNV-1a (32 bit) of the key bytes: what `sarama.NewHashPartitioner` hashes with -/
+def fnv1a (bs : List UInt8) : Nat :=
+  bs.foldl (fun h b => ((h ^^^ b.toNat) * 16777619) % 4294967296) 2166136261
+
+/-- `NewHashPartitioner` on a message whose key bytes are the decimal text of `m.key` -/
+def fnvPart : Part Unit :=
+  { init := fun _ => (),
+    step := fun _ m n => (.ok (Model.Partitioner.hashChoice false (fnv1a (toString m.key).toUTF8.toList) n), ()) }
+
 def withPart (name : String) (mode : Mode) (ops : List String) : String :=
   let go {σ : Type} (P : Part σ) : String := prodRun P mode (PState.init P [] TopicCfg.new) ops []
   if name = "manual" then go manualPart
   else if name = "hash" then go hashPart
+  else if name = "fnv" then go fnvPart
   else if name = "rr" then go rrPart
   else if name = "cecho" then go echoPart
   else if name = "cmix" then go mixPart
